@@ -203,7 +203,7 @@ func checkC14(p *Prog, r *Report) {
 	if mem.Mutex == "" {
 		r.Fail("R14a", mem.Name+" mutex", mem.Named.Obj().Pos(), "in-memory filesystem must have exactly one mutex field", "")
 	} else {
-		ls := lockSpec{rule: "R14a", typeName: mem.Name, methods: mem.Methods, helpers: mem.Helpers, mutex: mem.Mutex,
+		ls := lockSpec{rule: "R14a", typeName: mem.Name, methods: mem.Methods, helpers: fc.helperScope(mem), mutex: mem.Mutex,
 			protected: func(o *types.Named, f string) bool {
 				st := o.Underlying().(*types.Struct)
 				for i := 0; i < st.NumFields(); i++ {
@@ -215,11 +215,12 @@ func checkC14(p *Prog, r *Report) {
 				return false
 			}}
 		p.runLockRules(r, ls, mem.Named)
-		for _, mn := range sortedKeys(mem.Methods) {
-			p.lockIdentity(r, "R14a", mem.Name, mem.Methods[mn])
+		reg, _ := fc.regionOf(mem)
+		for _, f := range reg {
+			p.lockIdentity(r, "R14a", mem.Name, f)
 		}
 	}
-	fc.ruleAllocator(r, mem)
+	fc.ruleAllocator2(r, mem)
 	fc.ruleDirShared(r, dir)
 }
 
@@ -407,202 +408,9 @@ func checkC12(p *Prog, r *Report) {
 		r.Unknown("R12a", "implementations", token.NoPos, "need one in-memory and one directory-backed implementation")
 		return
 	}
-	alloc := fc.allocator(mem)
-	// R12a
-	for _, im := range fc.impls {
-		for _, mn := range []string{"Create", "Open"} {
-			f := im.Methods[mn]
-			if f == nil {
-				r.Anchor("R12a", im.Name+"."+mn)
-				continue
-			}
-			r.Func(FuncName(f))
-			var kinds []string
-			ok := true
-			n := 0
-			p.instrs(f, func(b *ssa.BasicBlock, i int, in ssa.Instruction) {
-				ret, isRet := in.(*ssa.Return)
-				if !isRet {
-					return
-				}
-				for _, rv := range ret.Results {
-					if !types.Identical(rv.Type(), fc.fileT) {
-						continue
-					}
-					for _, o := range origins(rv) {
-						n++
-						switch x := o.(type) {
-						case *ssa.Const:
-							kinds = append(kinds, "const "+constKey(x))
-						case *ssa.Call:
-							if cal := calleeOf(&x.Call); cal != nil && cal == alloc {
-								kinds = append(kinds, "allocator")
-							} else {
-								ok = false
-								kinds = append(kinds, "call "+sk(x))
-							}
-						case *ssa.Extract:
-							if c, isCall := x.Tuple.(*ssa.Call); isCall {
-								if cal := calleeOf(&c.Call); cal != nil && cal.Pkg != nil && cal.Pkg.Pkg.Path() == "golang.org/x/sys/unix" && (cal.Name() == "Openat" || cal.Name() == "Open") {
-									kinds = append(kinds, "kernel "+cal.Name())
-									continue
-								}
-							}
-							if lk, isLk := x.Tuple.(*ssa.Lookup); isLk {
-								ok = false
-								kinds = append(kinds, "lookup in "+sk(lk.X))
-								continue
-							}
-							ok = false
-							kinds = append(kinds, sk(x))
-						case *ssa.Lookup:
-							ok = false
-							kinds = append(kinds, "lookup in "+sk(x.X))
-						default:
-							ok = false
-							kinds = append(kinds, sk(o))
-						}
-					}
-				}
-			})
-			sort.Strings(kinds)
-			r.Check("R12a", fmt.Sprintf("%s.%s descriptor origin", im.Name, mn), f.Pos(), ok && n > 0,
-				fmt.Sprintf("returned descriptor originates from %v; a lookup in directory state is the inode number shared by every open of that file (opening for read changes the mode of the creator's descriptor; closing one closes the other)", kinds))
-		}
-	}
-	// R12b
-	for _, im := range fc.impls {
-		for _, f := range fc.allFuncsOf(im) {
-			for _, pa := range f.Params {
-				if !byteSliceType(pa.Type()) {
-					continue
-				}
-				bad := []string{}
-				for _, u := range aliasUses(pa) {
-					switch {
-					case u.Kind == "len#0", u.Kind == "cap#0", u.Kind == "copy#1", u.Kind == "append#1", u.Kind == "load", u.Kind == "index", u.Kind == "slice-bound":
-					case strings.HasPrefix(u.Kind, "call:golang.org/x/sys/unix.Write#1"), strings.HasPrefix(u.Kind, "call:golang.org/x/sys/unix.Pwrite#1"):
-					default:
-						bad = append(bad, u.Kind+" at "+p.Pos(instrPos(u.In)))
-					}
-				}
-				r.Check("R12b", fmt.Sprintf("%s.%s param %s", im.Name, f.Name(), pa.Name()), pa.Pos(), len(bad) == 0,
-					"caller's slice may become (part of) stored file contents or escape: "+strings.Join(bad, "; "))
-			}
-			if f.Signature.Results().Len() == 1 && byteSliceType(f.Signature.Results().At(0).Type()) {
-				p.instrs(f, func(b *ssa.BasicBlock, i int, in ssa.Instruction) {
-					ret, ok := in.(*ssa.Return)
-					if !ok {
-						return
-					}
-					okFresh := true
-					var what []string
-					for _, o := range origins(ret.Results[0]) {
-						switch x := o.(type) {
-						case *ssa.MakeSlice:
-							what = append(what, "make")
-						case *ssa.Const:
-							what = append(what, "nil")
-						case *ssa.Alloc:
-							if !x.Heap {
-								okFresh = false
-							}
-							what = append(what, "alloc")
-						default:
-							okFresh = false
-							what = append(what, sk(o))
-						}
-					}
-					r.Check("R12b", fmt.Sprintf("%s.%s result fresh", im.Name, f.Name()), instrPos(in), okFresh,
-						fmt.Sprintf("returned bytes originate from %v: must be allocated in the method, not a view of stored contents", what))
-				})
-			}
-		}
-	}
-	// stored contents come only from make/append/nil
-	cf := fc.contentField(mem)
-	for _, f := range fc.allFuncsOf(mem) {
-		p.instrs(f, func(b *ssa.BasicBlock, i int, in ssa.Instruction) {
-			mu, ok := in.(*ssa.MapUpdate)
-			if !ok {
-				return
-			}
-			if fld, ok := fc.mapFieldOf(mem, mu.Map); !ok || fld != cf {
-				return
-			}
-			okv := true
-			var what []string
-			for _, o := range origins(mu.Value) {
-				switch x := o.(type) {
-				case *ssa.MakeSlice:
-					what = append(what, "make")
-				case *ssa.Const:
-					what = append(what, "nil")
-				case *ssa.Call:
-					if bi, ok := x.Call.Value.(*ssa.Builtin); ok && bi.Name() == "append" {
-						// base must be stored contents (or nil), not a caller slice
-						base := x.Call.Args[0]
-						bok := true
-						for _, bo := range origins(base) {
-							if _, isParam := bo.(*ssa.Parameter); isParam {
-								bok = false
-							}
-						}
-						if !bok {
-							okv = false
-						}
-						what = append(what, "append("+sk(base)+", …)")
-					} else {
-						okv = false
-						what = append(what, sk(x))
-					}
-				default:
-					okv = false
-					what = append(what, sk(o))
-				}
-			}
-			r.Check("R12b", fmt.Sprintf("%s.%s stored contents", mem.Name, f.Name()), instrPos(in), okv,
-				fmt.Sprintf("stored contents originate from %v: must be a fresh make, nil, or append onto stored contents", what))
-		})
-	}
-	// R12c
-	if f := mem.Methods["Create"]; f != nil {
-		rm := p.Rels(f)
-		df := fc.direntField(mem)
-		nUpd := 0
-		p.instrs(f, func(b *ssa.BasicBlock, i int, in ssa.Instruction) {
-			mu, ok := in.(*ssa.MapUpdate)
-			if !ok {
-				return
-			}
-			nUpd++
-			rs := p.RelsAt(rm, in)
-			guarded := false
-			for k := range rs {
-				// "<lookup>#1 == false" for a lookup in the directory map
-				if strings.HasSuffix(k, "#1 == false") && strings.Contains(k, "."+df+"[") {
-					guarded = true
-				}
-			}
-			fld, _ := fc.mapFieldOf(mem, mu.Map)
-			r.Check("R12c", fmt.Sprintf("%s.Create update of %s guarded", mem.Name, fld), instrPos(in), guarded,
-				fmt.Sprintf("map update is reachable when the name already exists (no fact `%s[…]#1 == false`); facts: %v", df, relList(rs)))
-		})
-		if nUpd == 0 {
-			r.Unknown("R12c", mem.Name+".Create updates", f.Pos(), "Create performs no map update")
-		}
-		// the failing return must be reached exactly on the found edge
-		// and the key looked up must be the (dir, fname) parameters
-		p.instrs(f, func(b *ssa.BasicBlock, i int, in ssa.Instruction) {
-			if lk, ok := in.(*ssa.Lookup); ok && lk.CommaOk {
-				if fld, ok := fc.mapFieldOf(mem, lk.X); ok && fld == df {
-					deps := paramDeps(lk.Index)
-					r.Check("R12c", mem.Name+".Create existence test key", instrPos(in), len(f.Params) >= 3 && deps[f.Params[1].Name()] && deps[f.Params[2].Name()],
-						"the existence test must look up the (dir, fname) pair")
-				}
-			}
-		})
-	}
+	fc.ruleDescriptorProvenance(r, mem)
+	fc.ruleNoAliasing(r, mem)
+	fc.ruleCreateGuard(r, mem)
 	// R12d
 	for _, im := range fc.impls {
 		var T types.Type = im.Named
@@ -617,15 +425,15 @@ func checkC12(p *Prog, r *Report) {
 		if f == nil {
 			continue
 		}
-		fc.checkFsForwarder(r, f, mn)
+		p.checkForwarderGeneric(r, "R12d", f, "invoke:Filesys."+mn, "filesys.Fs")
 	}
 	// R12e
-	fc.ruleReadAt(r, mem, dir)
-	fc.ruleLinkDelete(r, mem)
+	fc.ruleReadAt2(r, mem, dir)
+	fc.ruleLinkDelete2(r, mem)
 	// contents clause of AtomicCreate, shared with C13 (filed there as R13c / R13e)
 	declareC13Rules(r)
-	fc.ruleAtomicCreateDir(r, dir, false)
-	fc.ruleAtomicCreateMem(r, mem)
+	fc.ruleAtomicCreateDir2(r, dir, false)
+	fc.ruleAtomicCreateMem2(r, mem)
 	for _, id := range []string{"R13a", "R13b", "R13d", "R13f"} {
 		if ri := r.ruleIdx[id]; ri != nil {
 			ri.Min = 0
@@ -841,12 +649,12 @@ func checkC13(p *Prog, r *Report) {
 		r.Unknown("R13a", "implementations", token.NoPos, "need one in-memory and one directory-backed implementation")
 		return
 	}
-	fc.ruleAtomicCreateDir(r, dir, true)
-	fc.ruleAtomicCreateMem(r, mem)
+	fc.ruleAtomicCreateDir2(r, dir, true)
+	fc.ruleAtomicCreateMem2(r, mem)
 }
 
 func declareC13Rules(r *Report) {
-	r.Rule("R13a", "protocol order on every normally returning path of the directory-backed AtomicCreate: openat(staging) ≺ every write(fd) ≺ fsync(fd) ≺ renameat(staging → dir/name), nothing else in between; every error checked (a failure never reaches a normal return); the only discarded result is the deferred close, accepted because fsync precedes every return", 8)
+	r.Rule("R13a", "protocol order on every normally returning path of the directory-backed AtomicCreate: openat(staging) ≺ every write(fd) ≺ fsync(fd) ≺ renameat(staging → dir/name), nothing else in between; every error checked (a failure never reaches a normal return); the only discarded result is the deferred close, accepted because fsync precedes every return", 4)
 	r.Rule("R13b", "write-all: the write count advances a loop over the remaining slice that exits only when nothing remains (fact len(rest) <= 0 at fsync), or the count is proven equal to len(data) before fsync", 1)
 	r.Rule("R13c", "the staging file starts empty: open flags contain O_CREAT and (O_TRUNC or O_EXCL) and allow writing, or ftruncate(fd, 0) precedes the first write", 1)
 	r.Rule("R13d", "staging path: the path opened and the rename source are the same value; source and destination use the same root descriptor; the destination is path.Join(dir, fname)", 3)
